@@ -230,6 +230,35 @@ def random_history(rng, hid, steps=6, ext=False, shards=None, batch=3, slots=3, 
     return h
 
 
+def random_tcp_history(rng, hid, steps=6):
+    """Ingress based TCP services: ports shared by a host-less ingress (default backend of the port) and SNI hostnames,
+    with and without TLS, that come and go in partial syncs."""
+    tcp = dict(EXT_ING)
+    tcp = {k: v for k, v in tcp.items() if k.startswith("tcp")}
+    tcp["tcp5"] = dict(label="tcp5", rules=[R("tcp3.local", P("/", "s2"))], ann={"tcp-service-port": "7001"})
+    tcp["tcp6"] = dict(label="tcp6", rules=[R("tcp.local", P("/", "s1"))], ann={"tcp-service-port": "7002"})
+    h = dict(id=hid, opt=dict(shards=rng.choice([0, 0, 3]), watchwithoutclass=True), steps=[])
+    live = {}
+    for s in range(steps):
+        ops = list(base_ops()) if s == 0 else []
+        for _ in range(1 + rng.randrange(2 if s else 3)):
+            r = rng.random()
+            slot = 1 + rng.randrange(4)
+            if r < 0.3 and slot in live:
+                ops.append(op_del("ing", "%s/i%d" % (NS, slot)))
+                del live[slot]
+            elif r < 0.8:
+                t = tcp[rng.choice(sorted(tcp))] if rng.random() < 0.85 else rng.choice(["t1", "t4"])
+                ops.append(op_ing(slot, t))
+                live[slot] = t
+            elif r < 0.9:
+                ops.append(op_eps(rng.choice(["s1", "s2"]), rng.choice(["e0", "e1", "e2"])))
+            else:
+                ops.append(op_sec("c1", rng.choice(["absent", "crt:c1", "crt:c1v2"])))
+        h["steps"].append(dict(ops=ops, fullfirst=False))
+    return h
+
+
 # ------------------------------------------------------------------ TLA+ view of the core vocabulary
 
 REQ_PATHS = ["/", "/a", "/a/", "/a/b", "/a/b/c", "/ab", "/A", "/x", "/Up", "/up", "/Pre/x", "/pre/x"]
